@@ -31,15 +31,20 @@ def _patterns(m):
     return [list(range(m)), [(i // 2) % 2 * 3 for i in range(m)], [(-1) ** i * (i + 1) for i in range(m)]]
 
 
-def _run(case):
+def _obj(case):
     st = case["strategy"]
     x, y, n = case["x"], case["y"], case["n"]
+    dt = case.get("dtype", "float64")
+    xs = list(x) if case.get("as_list") else np.array(x, dtype=dt)
+    ys = list(y) if case.get("as_list") else np.array(y, dtype=dt)
     if st.startswith("function:"):
         import traffic_weaver.rfa as R
-        xs = list(x) if case.get("as_list") else np.array(x, dtype=case.get("dtype", "float64"))
-        ys = list(y) if case.get("as_list") else np.array(y, dtype=case.get("dtype", "float64"))
-        return R.FunctionRFA(xs, ys, n, sampling_function_supplier=SUPPLIERS[st.split(":")[1]]).rfa()
-    return RC.run(st, x, y, n, case.get("p", {}), as_list=case.get("as_list", False), dtype=case.get("dtype", "float64"))
+        return R.FunctionRFA(xs, ys, n, sampling_function_supplier=SUPPLIERS[st.split(":")[1]])
+    return RC.cls(st)(xs, ys, n, **RC.kwargs_for(st, case.get("p", {})))
+
+
+def _run(case):
+    return _obj(case).rfa()
 
 
 @kind("structure")
@@ -48,10 +53,21 @@ def check_structure(case):
     key = {"strategy": st.split(":")[0]}
     m = len(x)
     try:
-        res = _run(case)
+        obj = _obj(case)
+        res = obj.rfa()
+        first = (np.array(res[0], copy=True), np.array(res[1], copy=True)) if isinstance(res, tuple) and len(res) == 2 else None
+        res2 = obj.rfa()          # a strategy object may be asked again: same answer, first answer untouched
     except Exception as e:  # noqa
         return [fail("raised", {"exception": repr(e)}, dict(key, exc=type(e).__name__))], None
     fails = []
+    if first is not None and isinstance(res2, tuple) and len(res2) == 2:
+        try:
+            same = all(np.asarray(a).shape == np.asarray(b).shape and np.array_equal(np.asarray(a, dtype=float), np.asarray(b, dtype=float))
+                       for a, b in zip(first, res2)) and all(np.array_equal(np.asarray(a, dtype=float), np.asarray(b, dtype=float)) for a, b in zip(first, res))
+        except Exception:
+            same = False
+        if not same:
+            fails.append(fail("second-rfa-call-differs", {"first_len": len(first[0]), "second_len": len(np.asarray(res2[0]))}, key))
     if not (isinstance(res, tuple) and len(res) == 2):
         return [fail("not-a-pair", {"type": type(res).__name__}, key)], None
     xs, ys = res
@@ -69,7 +85,7 @@ def check_structure(case):
         return [fail("length", {"len_x": len(xs), "len_y": len(ys), "expected": L}, key)], None
     if not (np.all(np.isfinite(xs)) and np.all(np.isfinite(ys))):
         fails.append(fail("not-finite", {"xs": xs, "ys": ys}, key))
-    xf = np.array(x, dtype=np.float64)
+    xf = np.array(np.array(x, dtype=case.get("dtype", "float64")), dtype=np.float64)
     if xs[::n].tobytes() != xf.tobytes():
         fails.append(fail("nth-abscissa", {"got": xs[::n], "expected": xf}, key))
     for k in range(m - 1):
@@ -103,13 +119,15 @@ def harnesses(tier, seed):
     quick = tier == "quick"
     mmax = 5 if quick else 6
     grids = [g for m in range(2, mmax + 1) for g in A.grids(8, m)]
-    ns = [2, 3, 4, 5, 6, 7, 8, 9, 16] + ([] if quick else [64])
+    ns = [2, 3, 5, 8, 16] if quick else [2, 3, 4, 5, 6, 7, 8, 9, 16, 64]      # every n in 2..64 is covered by the every-n harness
     strategies = RC.STRATS + ["function:interp-float", "function:interp-0d"]
     imgs = [lambda v: 0.1 * v + 0.3, lambda v: 1e3 * v - 7, lambda v: v / 3.0]
     ident = lambda v: v  # noqa: E731
     # (dtype, list input?, abscissa image): float images only make sense for the float array variant
     variants = [("float64", False, ident), ("int64", False, ident), ("float64", True, ident)]
     variants += [("float64", False, imgs[seed % 3])] if quick else [("float64", False, f) for f in imgs]
+    # float32 abscissae of large magnitude (days since epoch, hourly data): still a float64 equally spaced grid
+    variants += [("float32", False, lambda v: 19000.0 + v / 24.0)]
 
     def psets(st, n):
         if st.startswith("function") or st not in RC.WINDOW:
@@ -129,7 +147,7 @@ def harnesses(tier, seed):
             x = [int(v) for v in x]
         for n in ns:
             for p in psets(st, n):
-                for y in _patterns(len(x)):
+                for y in (_patterns(len(x))[1:] if quick else _patterns(len(x))):
                     judge(ctx, check_structure, {"strategy": st, "x": x, "y": y, "n": n, "p": RC.pkey(p), "dtype": dt,
                                                  "as_list": as_list}, bulk=True)
         if len(x) == 3 and st == "linfix" and dt == "float64" and not as_list:
